@@ -55,6 +55,17 @@ MUTATIONS = {
         ("crates/model/src/market/position_impact.rs", "            utils::apply_factor(&duration_value, params.distribute_factor())", "            utils::apply_factor(&duration_value, params.min_position_impact_pool_amount())", "wrong field: rate replaced by the minimum"),
         ("crates/model/src/params/position.rs", "    pub fn distribute_factor(&self) -> &T {\n        &self.distribute_factor", "    pub fn distribute_factor(&self) -> &T {\n        &self.min_position_impact_pool_amount", "accessor returns the wrong field"),
     ],
+    "C24": [
+        ("programs/store/src/states/oracle/validator.rs", "            .checked_sub_unsigned(timestamp_adjustment)", "            .checked_add_unsigned(timestamp_adjustment)", "timestamp adjustment added instead of subtracted"),
+        ("programs/store/src/states/oracle/validator.rs", "        require_gte!(expiration_ts, current_ts, CoreError::MaxPriceAgeExceeded);", "        require_gt!(expiration_ts, current_ts, CoreError::MaxPriceAgeExceeded);", "age check >= -> >"),
+        ("programs/store/src/states/oracle/validator.rs", "            current_ts.saturating_add_unsigned(self.max_future_timestamp_excess),\n            oracle_ts,", "            current_ts.saturating_add_unsigned(self.max_future_timestamp_excess),\n            ts,", "future check on the adjusted timestamp"),
+        ("programs/store/src/states/oracle/validator.rs", "                    unit_prices.min.abs_diff(ref_price),\n                    CoreError::InvalidPriceFeedPrice", "                    unit_prices.max.abs_diff(ref_price),\n                    CoreError::InvalidPriceFeedPrice", "min side of the deviation check dropped"),
+        ("programs/store/src/states/oracle/validator.rs", "        self.merge_range(Some(oracle_slot), ts, ts);", "        self.merge_range(Some(oracle_slot), oracle_ts, oracle_ts);", "unadjusted timestamp merged into the range"),
+        ("programs/store/src/states/oracle/validator.rs", "        self.max_oracle_ts = self.max_oracle_ts.max(max_oracle_ts);", "        self.max_oracle_ts = self.max_oracle_ts.min(max_oracle_ts);", "merge_range: max -> min"),
+        ("programs/store/src/states/oracle/validator.rs", "            self.max_oracle_timestamp_range,\n            range,", "            self.max_oracle_timestamp_range + 1,\n            range,", "finish: range limit off by one"),
+        ("programs/store/src/states/oracle/price_map.rs", "        require_gte!(price.max.value, price.min.value, CoreError::InvalidArgument);", "        require_gte!(price.min.value, price.max.value, CoreError::InvalidArgument);", "from_price: min/max comparison swapped"),
+        ("programs/store/src/states/oracle/price_map.rs", "        require_neq!(price.min.value, 0, CoreError::InvalidArgument);", "        require_neq!(price.max.value, 0, CoreError::InvalidArgument);", "from_price: zero check on max instead of min"),
+    ],
     "C29": [
         ("programs/store/src/states/oracle/mod.rs", "            .with_unit_price(ref_price.checked_add(max_deviation)?, false)?;", "            .with_unit_price(ref_price.checked_add(max_deviation)?, true)?;", "upper bound rounded up to the grid"),
         ("programs/store/src/states/oracle/mod.rs", "            .with_unit_price(ref_price.checked_sub(max_deviation)?, true)?;", "            .with_unit_price(ref_price.checked_sub(max_deviation)?, false)?;", "lower bound rounded down to the grid"),
@@ -124,7 +135,7 @@ def main():
         finally:
             open(path, "w").write(orig)
         assert git_clean(rel), f"{rel} not restored!"
-        v = out["violations"]
+        v = [x for x in out["violations"] if not x.get("finding_key")]     # standing (unlisted) finding witnesses do not count
         verdict = "CAUGHT" if v else ("inconclusive" if out["inconclusive"] else "MISSED")
         print(f"[{k}] {verdict:12} {what}  ({time.time() - t0:.0f}s)")
         for x in v[:3]:
